@@ -29,9 +29,11 @@ TRUSTED = [
     "_reset_assertions/_add_assertion/_solve/_push/_pop; non-literal assumptions asserted on a pushed level)",
 ]
 ASSUMPTIONS = [
-    "solver side: options.incremental=True (default); with incremental=False is_sat asserts permanently by design "
-    "and the solver refuses further solving",
-    "solver side: the subclass decorates its proxy methods with clear_pending_pop as z3.py/msat.py do",
+    "solver side: with options.incremental=False is_sat asserts permanently by design and the solver refuses further "
+    "solving (checked by a probe against that documentation); histories with one-shot queries are therefore run with "
+    "incremental=True, query-free histories under both values; the Coq model has no options",
+    "solver side: the subclass marks either its proxy methods (z3.py/msat.py/btor.py) or its public methods "
+    "(yices.py/pico.py/bdd.py) with clear_pending_pop; both styles are run",
     "commands outside {assert, assert-soft, minimize, maximize, minmax, maxmin, push, pop, reset-assertions, "
     "check-sat} are treated as not touching the assertion stack (`reset` is not handled by get_last_formula "
     "and is outside the property's alphabet)",
@@ -53,6 +55,13 @@ RULE = ("DFS enumeration of ALL legal command lists up to the tier's length over
         "compared with its own reference stack and its own run of the Coq model, a new instance with t_init, and no "
         "step may change another instance. Unknown answers: every legal history up to the bound over a 9-symbol "
         "alphabet with is_sat/is_valid/solve calls that raise SolverReturnedUnknownResultError. "
+        "Configurations (the reference stack and the model have no options, so the raw trace must equal the default "
+        "one): constructor options generate_models, incremental, unsat_cores_mode None/all/named, random_seed, "
+        "solver_options x hook style (clear_pending_pop on the proxy methods / on the public methods): every history "
+        "up to length 3, the corpus and the dirty/fresh schedules under each of the 7 single-option flips; every "
+        "third (thorough: every) length-4 history, every random history and unknown-answer history under one of the "
+        "95 non-default combinations (cyclic); every enumerated interleaving under one flip; random interleavings with a "
+        "random combination per instance; a probe of the documented non-incremental behaviour. "
         "The run stops generating after 50 violations/anomalies; a watchdog (RSS 4 GB, quick: 15 min) turns a blow-up "
         "into a reported violation; distinct = distinct command lists / schedules")
 
@@ -216,6 +225,7 @@ class Impl(object):
                 return mgr.Int(v)
         self.listmgr = ListMgr()
         self.BruteForceSolver = make_solver_class()
+        self.solver_classes = {"hooks": self.BruteForceSolver, "public": make_solver_class(decorate_hooks=False)}
 
     # -- scripts ----------------------------------------------------------------------
     def command(self, t):
@@ -289,7 +299,14 @@ class Impl(object):
             return ("err", self._exc(ex))
 
     # -- solver(s) --------------------------------------------------------------------
-    def run_multi(self, schedule, observe_all=False):
+    def new_solver(self, cfg=None):
+        from pysmt.logics import QF_BOOL
+        cfg = cfg or DEFAULT_CONFIG
+        kw = dict((k, cfg[k]) for k in ("generate_models", "incremental", "unsat_cores_mode", "random_seed", "solver_options")
+                  if cfg[k] != DEFAULT_CONFIG[k])
+        return self.solver_classes[cfg["style"]](self.env, QF_BOOL, **kw)
+
+    def run_multi(self, schedule, observe_all=False, configs=None):
         """Several BruteForceSolver instances alive at once.  schedule: list of (j, token); solver j is created
         at its first entry (token ('new',) only creates it).  Every instance has its own reference stack; after
         the schedule `assertions` of every instance is read (as an explicit ('obs',) step of that instance).
@@ -321,7 +338,7 @@ class Impl(object):
             return ([fid.get(x, 97) for x in st[:cap]], list(bp[:cap]), bool(s.pending_pop))
 
         def create(j):
-            s = solvers[j] = self.BruteForceSolver(self.env, QF_BOOL)
+            s = solvers[j] = self.new_solver((configs or {}).get(j))
             refs[j], cmds[j], traces[j] = RefStack(), [], []
             r = raw(s, "new solver %d" % j)
             if r != ([], [], False):
@@ -412,6 +429,38 @@ class Impl(object):
             step(i, ("obs",), len(schedule))
         return cmds, traces, problems, anomalies
 
+    def nonincremental_probe(self):
+        """options.incremental=False, as documented in Solver.is_sat: the formula is asserted (for good) and solved,
+        and the solver refuses any further solve()/is_sat().  -> [(message, history, config)]"""
+        from pysmt.exceptions import SolverStatusError
+        out = []
+        a, b = self.form[0], self.form[1]
+        for style in ("hooks", "public"):
+            cfg = dict(DEFAULT_CONFIG, style=style, incremental=False)
+            hist = [("add", 1), ("is_sat", 0)]
+            try:
+                s = self.new_solver(cfg)
+                s.add_assertion(b)
+                r = s.is_sat(a)
+                if r is not True:
+                    out.append(("non-incremental is_sat(a) after add_assertion(b) answered %s" % r, hist, cfg))
+                if list(s.assertions) != [b, a] or s._backtrack_points != [] or s.pending_pop:
+                    out.append(("non-incremental is_sat: assertions = %s, _backtrack_points = %s, pending_pop = %s; documented: the "
+                                "formula is asserted and solved, no level is opened" % ([self.fid.get(x, str(x)) for x in s.assertions],
+                                                                                         s._backtrack_points, s.pending_pop), hist, cfg))
+                for name, call in (("solve", lambda: s.solve()), ("is_sat", lambda: s.is_sat(b)),
+                                   ("is_valid", lambda: s.is_valid(b)), ("is_unsat", lambda: s.is_unsat(b))):
+                    try:
+                        call()
+                        out.append(("non-incremental: %s() after is_sat did not raise SolverStatusError" % name, hist + [(name, 1)], cfg))
+                    except SolverStatusError:
+                        pass
+                if list(s.assertions) != [b, a]:
+                    out.append(("non-incremental: refused calls changed the assertion list", hist, cfg))
+            except Exception as ex:
+                out.append(("non-incremental probe raised %s: %s" % (type(ex).__name__, ex), hist, cfg))
+        return out
+
     def run_solver(self, tokens):
         """One solver, one history -> (cmds, trace, problems, anomalies)."""
         cmds, traces, problems, anomalies = self.run_multi([(0, t) for t in tokens] or [(0, ("new",))])
@@ -449,8 +498,12 @@ class NativeStack(object):
         return [x for lv in self.levels for x in lv]
 
 
-def make_solver_class():
-    from pysmt.decorators import clear_pending_pop
+def make_solver_class(decorate_hooks=True):
+    """decorate_hooks=True: @clear_pending_pop on the proxy methods _reset_assertions/_add_assertion/_solve/_push/_pop
+    (z3.py, msat.py, btor.py).  False: plain proxy methods and @clear_pending_pop on the PUBLIC methods instead (the
+    style of yices.py / pico.py / bdd.py), each delegating to IncrementalTrackingSolver."""
+    from pysmt.decorators import clear_pending_pop as _cpp
+    clear_pending_pop = _cpp if decorate_hooks else (lambda f: f)
     from pysmt.exceptions import SolverReturnedUnknownResultError
     from pysmt.logics import QF_BOOL
     from pysmt.solvers.options import SolverOptions
@@ -517,7 +570,81 @@ def make_solver_class():
         def _exit(self):
             pass
 
-    return BruteForceSolver
+    if decorate_hooks:
+        return BruteForceSolver
+
+    class PublicStyleSolver(BruteForceSolver):
+        @_cpp
+        def reset_assertions(self):
+            return IncrementalTrackingSolver.reset_assertions(self)
+
+        @_cpp
+        def add_assertion(self, formula, named=None):
+            return IncrementalTrackingSolver.add_assertion(self, formula, named=named)
+
+        @_cpp
+        def solve(self, assumptions=None):
+            return IncrementalTrackingSolver.solve(self, assumptions)
+
+        @_cpp
+        def push(self, levels=1):
+            return IncrementalTrackingSolver.push(self, levels)
+
+        @_cpp
+        def pop(self, levels=1):
+            return IncrementalTrackingSolver.pop(self, levels)
+
+    return PublicStyleSolver
+
+
+# ---------------------------------------------------------------------------------------
+# configurations: constructor options the base classes accept x hook style.  The reference stack and the
+# Coq model have no options: the trace of a history must not depend on the configuration.
+# (pysmt/solvers/solver.py reads self.options.incremental in is_sat and self.options.unsat_cores_mode in
+#  UnsatCoreSolver; options.py validates generate_models, incremental, unsat_cores_mode, random_seed,
+#  solver_options; decorators.py reads no option.)
+# ---------------------------------------------------------------------------------------
+OPTION_AXES = [
+    ("style", ["hooks", "public"]),
+    ("generate_models", [True, False]),
+    ("incremental", [True, False]),
+    ("unsat_cores_mode", [None, "all", "named"]),
+    ("random_seed", [None, 7]),
+    ("solver_options", [None, {"verbosity": "1"}]),
+]
+DEFAULT_CONFIG = dict((k, v[0]) for k, v in OPTION_AXES)
+QUERY_TOKENS = ("is_sat", "is_valid", "is_unsat", "is_sat_unk", "is_valid_unk", "is_unsat_unk")
+
+
+def single_flip_configs():
+    out = []
+    for k, vals in OPTION_AXES:
+        for v in vals[1:]:
+            c = dict(DEFAULT_CONFIG)
+            c[k] = v
+            out.append(c)
+    return out
+
+
+def all_configs():
+    import itertools
+    keys = [k for k, _ in OPTION_AXES]
+    out = [dict(zip(keys, vs)) for vs in itertools.product(*[v for _, v in OPTION_AXES])]
+    return [c for c in out if c != DEFAULT_CONFIG]
+
+
+def legal_config(cfg, tokens):
+    """incremental=False is documented as `assert and solve once`: is_sat there keeps the formula and disables
+    further solving, so histories with one-shot queries are run with incremental=True (the documented
+    non-incremental behaviour has its own probe)."""
+    if not cfg["incremental"] and any(t[0] in QUERY_TOKENS for t in tokens):
+        cfg = dict(cfg)
+        cfg["incremental"] = True
+    return cfg
+
+
+def cfg_str(cfg):
+    return ",".join("%s=%s" % (k, cfg[k]) for k, _ in OPTION_AXES if cfg[k] != DEFAULT_CONFIG[k]) or "default"
 
 
 # ---------------------------------------------------------------------------------------
@@ -852,8 +979,9 @@ def check_script(chk, tokens, last, strict, seen_keys):
     return n
 
 
-def solver_repro(sched):
-    return "from harness.c16 import Impl; I = Impl(); print(I.run_multi(%r)[2:])  # [(solver instance, command)]" % (sched,)
+def solver_repro(sched, cfgs=None):
+    return ("from harness.c16 import Impl; I = Impl(); print(I.run_multi(%r, configs=%r)[2:])  "
+            "# [(solver instance, command)], {instance: constructor options + hook style}" % (sched, cfgs))
 
 
 # ---------------------------------------------------------------------------------------
@@ -958,55 +1086,93 @@ def run(tier):
     files = write_cases(chk, "script", rows,
                         "list (cmd nat nat) * result (list nat * list (cgoal nat nat)) * result (list nat)", SCRIPT_TAIL)
     meta = dict((p, ("script", sel[i * 500:(i + 1) * 500])) for i, p in enumerate(files))
+    # the model side of the scripts runs (coqc child processes) while the solver histories are generated
+    from concurrent.futures import ThreadPoolExecutor
+    have_models = (os.path.exists(os.path.join(lib.COQ, "models", "TrackSolver.vo"))
+                   and os.path.exists(os.path.join(lib.COQ, "models", "Script.vo")))
+    overlap = have_models and os.environ.get("VERIF_C16_OVERLAP", "1") == "1"
+    script_future = ThreadPoolExecutor(max_workers=1).submit(lib.run_case_files, files, max(2, lib.NPROC - 4)) if overlap else None
     chk.note("scripts: %d command lists (%d enumerated, %d legal)" % (len(lists), nenum, nlegal))
 
     # ---------------- solver(s) -------------------------------------------------------
     srows, ssel, sseen, anomalies = [], [], set(), []
-    counts = {"corpus": 0, "single": 0, "unknown_family": 0, "multi_enumerated": 0, "multi_random": 0, "dirty_fresh": 0}
+    counts = {"configured": 0, "corpus": 0, "single": 0, "unknown_family": 0, "multi_enumerated": 0, "multi_random": 0, "dirty_fresh": 0}
 
-    def do_schedule(sched, to_coq, family, observe_all=False):
+    def report(sched, observe_all, problems, anom, cfgs=None):
+        single = all(x[0] == 0 for x in sched)
+        key = ("solver:%s" % tok_str([t for _, t in sched])) if single else ("solvers:%s" % sched_str(sched))
+        if cfgs:
+            key += " @ " + " | ".join("%d:%s" % (jj, cfg_str(cfgs[jj])) for jj in sorted(cfgs))
+        if key in sseen or len(sseen) >= chk.max_violations:
+            return
+        sseen.add(key)
+        chk.violation({"kind": "history", "target": "solver", "history": [[jj, list(t)] for jj, t in sched],
+                       "observe_all": observe_all, "what": problems[0], "all_problems": problems[:5],
+                       "configs": dict((str(jj), cfgs[jj]) for jj in cfgs) if cfgs else None,
+                       "configs_note": "constructor options / hook style per solver instance (None = defaults)",
+                       "raw_state_anomalies": anom[:3],
+                       "oracle": "one RefStack (SMT-LIB assertion stack) per solver instance + truth table",
+                       "repro": solver_repro(sched, cfgs)}, key=key)
+
+    def do_schedule(sched, to_coq, family, observe_all=False, variants=(), per_instance=None):
+        """Default configuration first (-> Coq model); then the same schedule under each configuration of
+        `variants` (all instances alike) and/or `per_instance` ({instance: configuration}): same oracle, and the
+        raw trace must be the one of the default run (neither the reference stack nor the model has options)."""
         chk.last_input = {"family": family, "schedule": sched}
         cmds, traces, problems, anom = I.run_multi(sched, observe_all)
         chk.count((family, tuple(sched), observe_all))
         counts[family] += 1
-        single = all(x[0] == 0 for x in sched)
-        if problems and len(sseen) < chk.max_violations:
-            key = ("solver:%s" % tok_str([t for _, t in sched])) if single else ("solvers:%s" % sched_str(sched))
-            if key not in sseen:
-                sseen.add(key)
-                chk.violation({"kind": "history", "target": "solver", "history": [[jj, list(t)] for jj, t in sched],
-                               "observe_all": observe_all, "what": problems[0], "all_problems": problems[:5],
-                               "raw_state_anomalies": anom[:3],
-                               "oracle": "one RefStack (SMT-LIB assertion stack) per solver instance + truth table",
-                               "repro": solver_repro(sched)}, key=key)
+        if problems:
+            report(sched, observe_all, problems, anom)
         if anom and len(anomalies) < 4 * chk.max_violations:
             anomalies.append({"what": anom[0], "schedule": sched_str(sched)})
         if to_coq:
             for jj in sorted(cmds):
                 ssel.append((sched, jj))
                 srows.append("([%s], %s)" % ("; ".join(coq_solver_cmd(t) for t in cmds[jj]), coq_trace(traces[jj])))
+        todo = [dict((jj, c) for jj in cmds) for c in variants] + ([per_instance] if per_instance else [])
+        for cfgs in todo:
+            cfgs = dict((jj, legal_config(cfgs.get(jj, DEFAULT_CONFIG), [t for j2, t in sched if j2 == jj])) for jj in cmds)
+            chk.last_input = {"family": family, "schedule": sched, "configs": cfgs}
+            c2, t2, p2, a2 = I.run_multi(sched, observe_all, configs=cfgs)
+            chk.count((family, tuple(sched), observe_all, repr(sorted(cfgs.items()))))
+            counts["configured"] += 1
+            if p2:
+                report(sched, observe_all, p2, a2, cfgs)
+            if (c2, t2) != (cmds, traces) and not problems and len(anomalies) < 4 * chk.max_violations:
+                anomalies.append({"what": "the raw trace depends on the configuration %s"
+                                          % " | ".join("%d:%s" % (jj, cfg_str(cfgs[jj])) for jj in sorted(cfgs)),
+                                  "schedule": sched_str(sched), "default_trace": str(traces)[:300], "trace": str(t2)[:300]})
 
     def stop():
         return chk.enough(len(anomalies))
+
+    flips, combos, ncfg = single_flip_configs(), all_configs(), 0
 
     # (a) a new instance after / next to a dirty one; (b) all interleavings of 2 instances up to length 5 (6 thorough)
     # over a 4-symbol alphabet per instance; (c) random interleavings of 2-3 independent legal histories
     for ent in corpus:
         if ent.get("target") == "solver":
-            do_schedule([(int(x[0]), tuple(x[1])) for x in ent["schedule"]], True, "corpus")
+            do_schedule([(int(x[0]), tuple(x[1])) for x in ent["schedule"]], True, "corpus", variants=flips)
     for sched in dirty_fresh_schedules():
-        do_schedule(sched, True, "dirty_fresh")
+        do_schedule(sched, True, "dirty_fresh", variants=flips)
+    for msg, hist, cfg in I.nonincremental_probe():
+        chk.violation({"kind": "history", "target": "solver", "history": [[0, list(t)] for t in hist], "configs": {"0": cfg},
+                       "what": msg, "oracle": "documentation of Solver.is_sat (non-incremental: assert and solve once)"},
+                      key="noninc:%s@%s" % (tok_str(hist), cfg_str(cfg)))
     multi = enumerate_multi(MULTI_ALPHABET, 2, 5 if tier == "quick" else 6)
     multi.sort(key=len)
     mfrac = 0.25 if tier == "quick" else 0.5
     for sched in multi:
         if stop():
             break
-        do_schedule(sched, len(sched) <= 4 or rsel.random() < mfrac, "multi_enumerated")
+        ncfg += 1
+        do_schedule(sched, len(sched) <= 4 or rsel.random() < mfrac, "multi_enumerated", variants=[flips[ncfg % len(flips)]])
     for n in range(600 if tier == "quick" else 8000):
         if stop():
             break
-        do_schedule(random_multi(rnd), True, "multi_random", observe_all=(n % 3 == 0))
+        do_schedule(random_multi(rnd), True, "multi_random", observe_all=(n % 3 == 0),
+                    per_instance=dict((jj, rnd.choice(combos)) for jj in range(3)))
     chk.note("solver instances alive together: %d schedules, %d violations, %d raw-state anomalies"
              % (counts["dirty_fresh"] + counts["multi_enumerated"] + counts["multi_random"], len(chk.violations), len(anomalies)))
 
@@ -1022,13 +1188,21 @@ def run(tier):
     for idx, toks in enumerate(slists):
         if stop():
             break
-        do_schedule([(0, t) for t in toks], len(toks) <= 4 or idx >= nsenum or rsel.random() < frac, "single")
+        ncfg += 1
+        if len(toks) <= 3:
+            var = flips
+        elif tier == "quick" and idx < nsenum and ncfg % 3:
+            var = ()
+        else:
+            var = [combos[ncfg % len(combos)]]
+        do_schedule([(0, t) for t in toks], len(toks) <= 4 or idx >= nsenum or rsel.random() < frac, "single", variants=var)
     ulists = [l for l in enumerate_lists(UNKNOWN_ALPHABET, maxlen, illegal_leaves=False) if any(t[0].endswith("_unk") for t in l)]
     ulists.sort(key=len)
     for toks in ulists:
         if stop():
             break
-        do_schedule([(0, t) for t in toks], True, "unknown_family")
+        ncfg += 1
+        do_schedule([(0, t) for t in toks], True, "unknown_family", variants=[flips[ncfg % len(flips)]])
     stopped_early = stop()
     if not stopped_early:
         chk.sample({"kind": "solver", "commands": tok_str(slists[nsenum - 1]), "trace": str(I.run_solver(slists[nsenum - 1])[1])})
@@ -1046,11 +1220,10 @@ def run(tier):
     # ---------------- model side ------------------------------------------------------
     corr_bad = []
     chk.last_input = {"family": "model side (coqc on the case files)"}
-    if os.path.exists(os.path.join(lib.COQ, "models", "TrackSolver.vo")) and os.path.exists(os.path.join(lib.COQ, "models", "Script.vo")):
-        todo = files + sfiles
-        if stopped_early:
-            todo = todo[:8]             # enough is known already: a token run of the model side only
-        res = lib.run_case_files(todo)
+    if have_models:
+        res = script_future.result() if script_future else {}
+        todo = files + (sfiles[:4] if stopped_early else sfiles)   # stopped early: enough is known already
+        res.update(lib.run_case_files([p for p in todo if p not in res]))
         for p in todo:
             rc, out = res[p]
             mm = lib.parse_nat_list(out) if rc == 0 else None
@@ -1077,6 +1250,9 @@ def run(tier):
                                  "also_enumerated": "length 6 over 8-symbol sub-alphabets" if tier == "thorough" else None,
                                  "case_files": len(files) + len(sfiles), "disagreements": len(corr_bad),
                                  "raw_state_anomalies": len(anomalies), "stopped_early": stopped_early,
+                                 "configurations": {"axes": dict((k, [str(x) for x in v]) for k, v in OPTION_AXES),
+                                                    "single_flips": len(flips), "combinations": len(combos),
+                                                    "configured_runs": counts["configured"]},
                                  "compared": "scripts: result of get_last_formula(return_optimizations=True) "
                                              "(assertion list, goals with soft clauses and weights, or exception class) and of "
                                              "get_strict_formula; solver: (_assertion_stack, _backtrack_points, pending_pop) "
@@ -1107,7 +1283,8 @@ def replay(path):
         h = r["history"]
         multi = bool(h) and all(len(x) == 2 and isinstance(x[1], list) for x in h)
         sched = [(int(x[0]), tuple(x[1])) for x in h] if multi else [(0, tuple(t)) for t in h]
-        cmds, traces, problems, anom = I.run_multi(sched, observe_all=bool(r.get("observe_all")))
+        cfgs = dict((int(k), v) for k, v in r["configs"].items()) if r.get("configs") else None
+        cmds, traces, problems, anom = I.run_multi(sched, observe_all=bool(r.get("observe_all")), configs=cfgs)
         print("traces:", traces)
         print("problems:", problems)
         print("raw-state anomalies:", anom)
